@@ -27,7 +27,7 @@ META = dict(
              "decoder is the real reader, so a writer and reader that are wrong in the same way are not separated",
              "Molden/Molekel reload: the vendor-detection cascade is short-circuited to 'standard file' (its subject is "
              "C05); coordinates and contraction coefficients concrete there", "float digits; more than 4 shells; "
-             "density matrices stored in FCHK (job fchk-dm)"],
+             "density matrices other than FCHK's scf / scf_spin"],
     assumptions=["basis functions compared through expansions in normalised primitives keyed by (centre, exponent, kind, "
                  "l, polynomial) (specs/basisfun.py)", "float-noise-tolerant equality of canonical forms (1e-7)",
                  "tokens / in-memory files / exact reals"],
@@ -108,6 +108,9 @@ def h_convert(ctx, fmt="wfn", shells="sp", conv="own", twin=False, ecp=False):
         kw = wfobj.make_wf(ctx, atoms, SHELLSETS[shells], conv=convname, mo_kind=mo_kind, norb=2, occ=occ,
                            coords_sym=not heavy, contraction_sym=not heavy)
         kw["energy"] = ctx.real("Etot", lo=-1e4, hi=0, default=-75.0) if not heavy else -75.0
+        if fmt == "fchk":
+            nb = wfobj.nbasis_of(SHELLSETS[shells])
+            kw["one_rdms"] = {"scf": rt._symm(ctx, "dm", nb), "scf_spin": rt._symm(ctx, "sdm", nb)}
         data = IOData(**kw)
         src = semantic(ctx, data)
         path = ctx.tmp_path(FILENAMES[fmt])
@@ -149,6 +152,14 @@ def h_convert(ctx, fmt="wfn", shells="sp", conv="own", twin=False, ecp=False):
         ctx.oblige("nuclei:coordinates", ctx.approx(back.atcoords, data.atcoords, 1e-7, atol=2e-6), cls=cls)
         if fmt in ("fchk", "molden", "wfx"):
             ctx.oblige("nuclei:core-charges", ctx.approx(back.atcorenums, data.atcorenums, 1e-7), cls=cls)
+        if fmt == "fchk":
+            # every stored density matrix denotes the same density (bilinear form over the primitives)
+            for key, dm in data.one_rdms.items():
+                got = back.one_rdms.get(key)
+                if got is None:
+                    ctx.oblige(f"density:{key}", False, cls=f"{cls},{mo_kind}/{occ}", detail="missing after reload")
+                    continue
+                ctx.oblige(f"density:{key}", rt.same_density(ctx, data.obasis, dm, back.obasis, got), cls=f"{cls},{mo_kind}/{occ}")
         dst = semantic(ctx, back)
         if twin:
             dst["a"] = [(o, e, {k: v * 2.0 for k, v in x.items()}) for (o, e, x) in dst["a"]]
